@@ -175,6 +175,10 @@ def _factor_keys_transform(ff: FuncFacts, tr: FuncInfo, sinks):
 
 def _agree(chk):
     pm = chk.pm
+    from . import c11
+    from .c01 import _Relabel
+    for cname, trname in (("xeofs.single.eof_rotator.EOFRotator", "_transform_algorithm"), ("xeofs.cross.cpcca_rotator.CPCCARotator", "transform")):
+        c11._resort_in_transform(_Relabel(chk, "SORT.state.transform", "AGREE.resort"), pm.cls(cname).methods[trname])
     specs = [
         ("xeofs.single.eof_rotator.EOFRotator", "_transform_algorithm", ["scores"]),
         ("xeofs.cross.cpcca_rotator.CPCCARotator", "transform", ["scores1", "scores2"]),
